@@ -217,6 +217,8 @@ def programs(draw) -> t.Any:
             lv['opts']['custom'] = draw(st.sampled_from(['double', 'triple', 'none']))
         if 'in_format' in lv['opts']:
             tuple_in = 'tuple' in lv['opts']['in_format']
+        if i > 0 and draw(st.integers(0, 4)) == 4:
+            lv['mixin'] = draw(st.sampled_from(['first', 'last']))    # a plain (non-pane) class among the bases
         # fields: new ones and overrides
         nnew = draw(st.integers(1 if i == 0 else 0, 2))
         names = [n for n in FIELD_POOL if n not in known]
@@ -333,6 +335,12 @@ def _handlers():
     return {'double': {int: Mul(2)}, 'triple': {int: Mul(3)}, 'none': {}}
 
 
+class _Mixin:
+    """A plain helper class: contributes methods only, no fields, no options."""
+    def describe(self) -> str:
+        return f"<{type(self).__name__}>"
+
+
 _H: t.Dict[str, t.Any] = {}
 _KEEP: t.List[t.Any] = []
 
@@ -349,8 +357,11 @@ def build(prog: t.Dict[str, t.Any]) -> t.List[t.Any]:
             args = tuple(ast_build(a) for a in lv['base_args'])
             base = prev[args if len(args) > 1 else args[0]]
         bases: t.Tuple[t.Any, ...] = (base,)
+        if lv.get('mixin'):
+            mix = type(f"Mixin{i}", (), {'describe': _Mixin.describe})     # one plain class per level (no MRO conflicts)
+            bases = (mix, base) if lv['mixin'] == 'first' else (base, mix)
         if lv.get('generic'):
-            bases = (base, t.Generic[tuple(VARS[v] for v in lv['generic'])])  # type: ignore
+            bases = (*bases, t.Generic[tuple(VARS[v] for v in lv['generic'])])  # type: ignore
         ann: t.Dict[str, t.Any] = {}
         ns: t.Dict[str, t.Any] = {'__annotations__': ann, '__module__': 'pv.generated'}
         for (j, fs) in enumerate(lv['fields']):
@@ -389,6 +400,8 @@ def render(prog: t.Any) -> t.Any:
         base = 'PaneBase' if i == 0 else f"L{i - 1}"
         if lv.get('base_args') is not None:
             base += '[' + ', '.join(ast_render(a) for a in lv['base_args']) + ']'
+        if lv.get('mixin'):
+            base = f"Mixin, {base}" if lv['mixin'] == 'first' else f"{base}, Mixin"
         if lv.get('generic'):
             base += f", Generic[{', '.join(lv['generic'])}]"
         o = ''.join(f", {k}={v!r}" for (k, v) in lv['opts'].items())
